@@ -269,6 +269,56 @@ Fixpoint do_hist (st : state) (toks : list string) (acc : list string) (k : bool
     end
   end.
 
+(* ---------------- kinds opts / tab ---------------- *)
+Definition show_opts_all (o : new_options) : string :=
+  "slla=" ++ hx (o_slla o) ++ " tlla=" ++ hx (o_tlla o) ++ " mtu=" ++ dec_of_N (o_mtu o)
+  ++ " pfx=" ++ joinc (map show_pi (o_prefixes o))
+  ++ " rdnss=" ++ joins (map show_rd1 (o_rdnss_all o)) ++ " dnssl=" ++ joins (map show_ds1 (o_dnssl_all o))
+  ++ " ri=" ++ joins (map show_ri1 (o_routes o)) ++ " legacy:" ++ show_legacy o.
+
+(* which NewOptions field an option of type t feeds: probes of length 1, 2, 3, 4 that are well formed for every kind *)
+Definition probe1 : bytes := [0;0;0;0;5;220].
+Definition probe2 : bytes := [0;0;0;0;0;9;1;97;0;0;0;0;0;0].
+Definition probe3 : bytes := ([0;0;0;0;0;9] ++ repeat 32 16)%list.
+Definition probe4 : bytes := ([64;192;0;0;0;9;0;0;0;8;0;0;0;0] ++ repeat 32 16)%list.
+Definition classify (o : new_options) : string :=
+  if negb (List.length (o_slla o) =? 0)%nat then "slla"
+  else if negb (List.length (o_tlla o) =? 0)%nat then "tlla"
+  else if negb (o_mtu o =? 0) then "mtu"
+  else if negb (List.length (o_prefixes o) =? 0)%nat then "prefix"
+  else if negb (List.length (o_routes o) =? 0)%nat then "route"
+  else if negb (List.length (o_rdnss_all o) =? 0)%nat then "rdnss"
+  else if negb (List.length (o_dnssl_all o) =? 0)%nat then "dnssl"
+  else "-".
+Definition kind_of_type (t : N) : string :=
+  let try1 (l : N) (body : bytes) := match opt_step opts_zero t (t :: l :: body) with Ok o => classify o | _ => "-" end in
+  let r1 := try1 1 probe1 in if negb (String.eqb r1 "-") then r1 else
+  let r4 := try1 4 probe4 in if negb (String.eqb r4 "-") then r4 else
+  let r3 := try1 3 probe3 in if negb (String.eqb r3 "-") then r3 else try1 2 probe2.
+Fixpoint tab_types_from (t : N) (n : nat) : list string :=
+  match n with
+  | O => []
+  | S n' => let k := kind_of_type t in
+            let rest := tab_types_from (t + 1) n' in
+            if String.eqb k "-" then rest else (dec_of_N t ++ ":" ++ k) :: rest
+  end.
+Definition tab_types (n : nat) : string := join " " (tab_types_from 0 n).
+
+(* flag byte: one-hot sweep of p[5] through router_update *)
+Definition hdr_with (i : nat) (v : N) : bytes := set_nth i v (134 :: repeat 0 15).
+Definition tab_flags : string :=
+  join " " (map (fun k => let r := router_update (router_new [] []) (hdr_with 5 (2 ^ N.of_nat k)) opts_zero in
+                          dec_of_nat k ++ ":M" ++ sb (r_managed r) ++ "O" ++ sb (r_other r) ++ "P" ++ dec_of_N (r_prf r)) (seq 0 8)).
+(* byte offsets of hop limit, lifetime, reachable and retransmit timers: one byte set to 1 at a time *)
+Definition tab_offsets : string :=
+  join " " (map (fun j => let r := router_update (router_new [] []) (hdr_with j 1) opts_zero in
+                          dec_of_nat j ++ ":" ++ dec_of_N (r_hop r) ++ "/" ++ dec_of_N (r_life r) ++ "/" ++ dec_of_N (r_reach r) ++ "/" ++ dec_of_N (r_retrans r)) (seq 4 12)).
+(* the fields of icmp_spoofer.Router and packet.NewOptions the model accounts for (sorted; name:type).
+   Router.enableRADVS / Router.RDNSS belong to the RA server (StartRADVS), NewOptions.FirstPrefix = Prefixes[0].Prefix. *)
+Definition tab_fields : string :=
+  "Router{Addr:packet.Addr CurHopLimit:uint8 DefaultLifetime:time.Duration MTU:uint32 ManagedFlag:bool Options:packet.NewOptions OtherCondigFlag:bool Preference:uint8 Prefixes:[]packet.PrefixInformation RDNSS:*packet.RecursiveDNSServer ReacheableTime:int RetransTimer:int enableRADVS:bool} " ++
+  "NewOptions{DNSSearchList:packet.DNSSearchList DNSSearchLists:[]packet.DNSSearchList FirstPrefix:net.IP MTU:packet.MTU Prefixes:[]packet.PrefixInformation RDNSS:packet.RecursiveDNSServer RDNSSList:[]packet.RecursiveDNSServer RouteInformation:packet.RouteInformation Routes:[]packet.RouteInformation SourceLLA:packet.LinkLayerAddress TargetLLA:packet.LinkLayerAddress}".
+
 (* handlers/icmp_spoofer ProcessPacket checks pkt.IP6().IsValid() first (repaired) *)
 Definition V4FIXED : bool := true.
 
@@ -303,6 +353,28 @@ Definition dispatch (kind : string) (args : list string) : string :=
                          then out3 "panic" "-" "icmp6-over-ip4-panic" else out3 "ok" "-" "-"
              | None => BADARGS
              end
+    | _ => BADARGS
+    end
+  else if String.eqb kind "opts" then
+    (* packet.ICMP6RouterAdvertisement(msg).Options() called directly (the decoder in isolation) *)
+    match args with
+    | [h] => match bytes_of_tok h with
+             | Some p =>
+                 let m := match ra_options p with Ok o => show_opts_all o | r => show_res (fun _ => "ok") r end in
+                 if xn_area p then out3 "puny" "-" "-" else out3 m "-" "-"
+             | None => BADARGS
+             end
+    | _ => BADARGS
+    end
+  else if String.eqb kind "tab" then
+    (* tables the model hard-codes, recomputed from the model itself; the harness derives the same
+       tables from the source's behaviour (sweeps over all option types / one-hot header bits) and by reflection *)
+    match args with
+    | [w] => if String.eqb w "types" then out3 (tab_types 256) "-" "-"
+             else if String.eqb w "flags" then out3 tab_flags "-" "-"
+             else if String.eqb w "offsets" then out3 tab_offsets "-" "-"
+             else if String.eqb w "fields" then out3 tab_fields "-" "-"
+             else BADARGS
     | _ => BADARGS
     end
   else BADARGS.
